@@ -2740,7 +2740,14 @@ impl<Alloc: BrotliAlloc> BrotliEncoderStateStruct<Alloc> {
             if self.available_out_ != 0usize {
                 break;
             }
-            if self.input_pos_ != self.last_flush_pos_ {
+            // the magic-number header must be the first meta-block of the stream: if no data has
+            // reached the encoder yet, let encode_data write it before the caller's metadata
+            let magic_header_pending = self.params.magic_number
+                && match self.is_first_mb {
+                    IsFirst::NothingWritten => true,
+                    _ => false,
+                };
+            if self.input_pos_ != self.last_flush_pos_ || magic_header_pending {
                 let mut avail_out: usize = self.available_out_;
                 let result = self.encode_data(false, true, &mut avail_out, metablock_callback);
                 self.available_out_ = avail_out;
